@@ -1,4 +1,4 @@
-\* C18 quick: 1 call + 1 subscription through every end path (accepted, refused, malformed id, unsubscribe, drop, server close, lag)
+\* C18 / C05: as MC_Client_book.cfg, and the application may give any future up before it returns (timeout, select!)
 CONSTANTS
   Ops <- Ops2
   Kind <- K_1call1sub
@@ -8,11 +8,11 @@ CONSTANTS
   SubIds = {1}
   Dev = {}
   PeerMenu = {"resp", "notif", "close"}
-  MaxPeer = 6
-  MaxPush = 2
+  MaxPeer = 4
+  MaxPush = 1
   Faults = {}
   RespShapes <- RS_sub12
-  Abandon = FALSE
+  Abandon = TRUE
   MaxArr = 1
   ArrMenu = {}
 INIT Init
